@@ -9,7 +9,7 @@ namespace {
 
 struct C05 : RBase {
   const char* id() const override { return "C05"; }
-  long budget(const std::string& tier) const override { return tier == "thorough" ? 300000 : 10000; }
+  long budget(const std::string& tier) const override { return tier == "thorough" ? 300000 : 6000; }
   std::string rule() const override {
     return "plan = generated program plus 6..20 alias scenarios over every modelled value type: b = a; t.put(i, a); f(a); tup(a, ..); tab(n, a); returning a; each followed by an in-place "
            "mutation of one alias (put, insert, delete, concat, set@, string concat) and a print of all aliases; the same side-effect-free expression node evaluated repeatedly in loops; "
